@@ -290,10 +290,12 @@ func (s *h2srv) serve(c net.Conn) {
 
 func newH2Client(addr string, decode bool) *req.Client {
 	c := req.C().SetTimeout(60 * time.Second).EnableH2C().EnableForceHTTP2()
-	c.SetDialTLS(func(ctx context.Context, network, _ string) (net.Conn, error) {
+	dial := func(ctx context.Context, network, _ string) (net.Conn, error) {
 		var d net.Dialer
 		return d.DialContext(ctx, network, addr)
-	})
+	}
+	c.SetDial(dial)    // h2c connections are dialled with the plain dialler (since fix ecf6c40)
+	c.SetDialTLS(dial) // ... and were dialled through this hook before it
 	if !decode {
 		c.DisableAutoDecode()
 	}
